@@ -26,6 +26,8 @@ __TAPKEE_IMPLEMENTATION(Isomap)
         DenseSymmetricMatrix shortest_distances_matrix =
             compute_shortest_distances_matrix(begin, end, neighbors, distance);
         shortest_distances_matrix = shortest_distances_matrix.array().square();
+        // the neighborhood graph is directed: average the squared lengths of both directions
+        shortest_distances_matrix = (shortest_distances_matrix + shortest_distances_matrix.transpose()).eval() / 2.0;
         centerMatrix(shortest_distances_matrix);
         shortest_distances_matrix.array() *= -0.5;
 
